@@ -307,8 +307,11 @@ PROPS['C19'] = dict(obligations=M_FIXED + [K('m_fixed_infer_complete_p8', 'model
                     bounds=MODEL_BOUNDS + '; constructor inputs UNCONSTRAINED (any bit pattern of the floats, any fixed-point table, any infer_last flag, mismatched symbol counts); a library panic is an accepted outcome',
                     outside=MODEL_OUTSIDE + '; Python front end (FFI); recorded known findings are excluded by their region predicates (see known_findings.json)', assumptions=[])
 
-RG = [K('c08_range_guard_normal_u8_u16', 'rangek', 'range_guard_normal_u8_u16', tq=900), K('c08_range_guard_inverted_u8_u16', 'rangek', 'range_guard_inverted_u8_u16', tq=900, mem_gb=30),
-      K('c08_range_guard_normal_u16_u32', 'rangek', 'range_guard_normal_u16_u32', tq=900), K('c08_range_guard_inverted_u16_u32', 'rangek', 'range_guard_inverted_u16_u32', tq=900, mem_gb=30),
+RG = [K('c08_range_guard_normal_u8_u16', 'rangek', 'range_guard_normal_u8_u16', tq=900), K('c08_range_guard_normal_u16_u32', 'rangek', 'range_guard_normal_u16_u32', tq=900),
+      # Inverted(n, w): n fixed per harness in the quick tier (symbolic n makes the Vec pushes of seal() explode in CBMC: 900 s timeout / OOM)
+      K('c08_range_guard_inverted_n1_u8_u16', 'rangek', 'range_guard_inverted_n1_u8_u16', tq=900), K('c08_range_guard_inverted_n2_u8_u16', 'rangek', 'range_guard_inverted_n2_u8_u16', tq=900),
+      K('c08_range_guard_inverted_n1_u16_u32', 'rangek', 'range_guard_inverted_n1_u16_u32', tq=900), K('c08_range_guard_inverted_n2_u16_u32', 'rangek', 'range_guard_inverted_n2_u16_u32', tq=900),
+      K('c08_range_guard_inverted_u8_u16', 'rangek', 'range_guard_inverted_u8_u16', tiers=('thorough',), mem_gb=30), K('c08_range_guard_inverted_u16_u32', 'rangek', 'range_guard_inverted_u16_u32', tiers=('thorough',), mem_gb=30),
       K('c08_range_guard_normal_u32_u64', 'rangek', 'range_guard_normal_u32_u64', tiers=('thorough',)), K('c08_range_guard_inverted_u32_u64', 'rangek', 'range_guard_inverted_u32_u64', tiers=('thorough',))]
 ANS_VIEWS = [K('c08_ans_view_u8_u16', 'ans', 'view_u8_u16'), K('c08_ans_view_u16_u32', 'ans', 'view_u16_u32'), K('c08_ans_view_u32_u64', 'ans', 'view_u32_u64', tiers=('thorough',)),
              K('c08_ans_binary_view_u8_u16', 'ans', 'guards_u8_u16'), K('c08_ans_binary_view_u16_u32', 'ans', 'guards_u16_u32', tiers=('thorough',))]
@@ -324,7 +327,7 @@ PROPS['C08'] = dict(
 
 PROPS['C18'] = dict(
     obligations=[K('c18_ans_sizes_u8_u16', 'ans', 'export_u8_u16'), K('c18_ans_sizes_u16_u32', 'ans', 'export_u16_u32'), K('c18_ans_sizes_u32_u64', 'ans', 'export_u32_u64'),
-                 K('c18_ans_valid_bits_u8_u16', 'ans', 'binary_u8_u16'), K('c18_ans_valid_bits_u16_u32', 'ans', 'binary_u16_u32', tiers=('thorough',))] + RG[:4] +
+                 K('c18_ans_valid_bits_u8_u16', 'ans', 'binary_u8_u16'), K('c18_ans_valid_bits_u16_u32', 'ans', 'binary_u16_u32', tiers=('thorough',))] + RG[:6] +
                 [K('c18_bit_len_stack', 'bits', 'stack_export_import', tq=900), K('c18_bit_len_queue', 'bits', 'queue_fifo', tq=900),
                  K('c18_float_views', 'models', 'conv_symbol_table', tq=900),
                  L('c18_range_sizes', 'k_c18_range_sizes_{cfg}', ['u8_u16', 'u16_u32', 'u32_u64'], ['u8_u16', 'u16_u32', 'u32_u64', 'u8_u32']),
